@@ -1,11 +1,12 @@
+\* the remap table as it is: a merge into one name reaches the other name of the shared definition -- TLC refutes MatchesByKeyAll (KF29)
 SPECIFICATION Spec
 CONSTANTS
   MaxContrib = 2
-  Focus <- FocusMain
+  Focus <- FocusShared
   DEV_NestedSupertype = FALSE
   DEV_OwnerImportTwice = FALSE
   DEV_OwnerNaming = TRUE
   DEV_WorldMerge = TRUE
   DEV_SharedRemap = TRUE
-INVARIANTS FailsExactly MatchesContract MatchesByKey OneImportPerKey UniqueNames Canonical Satisfies Idempotent
+INVARIANTS MatchesByKeyAll
 CHECK_DEADLOCK FALSE
